@@ -69,7 +69,7 @@ def memberPrelude (P : Prims) (id : Nat) (eo : Option Elem) (act : St → CM St)
     process the factor as an element (no member prelude), read the count back, repeat the scope -/
 def delayedAction (P : Prims) (T : Tables) (f : Nat) (body : St → CM St) (s : St) : CM St :=
   match T.b f with
-  | none => .error .other                       -- the factor is not a Table B element
+  | none => .error .unknownDescr                     -- the factor is not a Table B element
   | some fe =>
     match elementDescriptor P (.plain fe) fe s with
     | .error e => .error e
